@@ -660,5 +660,20 @@ class World:
 
             return pre
 
+        def pre_new(I, item, args):
+            # creation of a task (the verif hook records the same entry in the real engine's trace): how="new", no state change
+            node = deref_all(args[2])
+            proc = deref_all(args[0])
+            W.trace.append(dict(pid=W.field(proc, "Process", "id"), tid=args[1], old=0, new=0, how="new", nmsg=len(W.messages), kind=W.field(node, "Node", "content").vn))
+
+        def post_set_state(I, item, args, ret):
+            # the write is visible now (the real hook records the same second entry)
+            tk = deref_all(args[0])
+            st = args[1].d
+            W.trace.append(dict(pid=W.field(tk, "Task", "pid"), tid=W.field(tk, "Task", "id"), old=st, new=st, how="set_state_done", nmsg=len(W.messages),
+                                kind=W.field(W.field(tk, "Task", "node").c[0], "Node", "content").vn))
+
+        I.monitors_post[find("set_state").name] = post_set_state
+        I.monitors_pre[find("new").name] = pre_new
         I.monitors_pre[find("set_state").name] = pre_set_state("set_state")
         I.monitors_pre[find("set_pure_state").name] = pre_set_state("set_pure_state")
